@@ -326,3 +326,97 @@ def run(ctx):
             if not ok:
                 r4.fail('siblings/%s-%s' % vp, XT, 'pair %s/%s is decided by one of bind_in_assignment/eq only' % vp)
     r4.need(20)
+
+    # ---------------- R04.6 consistent binding of generic parameters: re-binding goes through common_type
+    bind_merge(ctx, ctx.rule('R04.6', 'a generic parameter that is already bound is re-bound only to common_type(existing, new)'))
+
+
+def bind_merge(ctx, r6):
+    """Every HashMap::insert into a `bound_generics` map that happens on the *found* side of a lookup of the same map must
+    insert a value whose every origin is the success payload of XType::common_type.  (A value taken from anywhere else --
+    the new binding itself, the old one, a clone -- replaces a binding without unifying it: `generic parameters bound
+    consistently over all arguments` fails for the calls that reach that path.)"""
+    from .lib import mirq
+    from .lib.facts import strip_generics, callee_name, op_place, op_local
+    mir = ctx.mir
+
+    def map_base(b, op):
+        """the place `X.bound_generics` a map reference operand points to, as a hashable key"""
+        l = op_local(op)
+        if l is None:
+            return None
+        k, v = mirq.chase(b, l)
+        if k == 'rv' and v[2]['rv']['k'] == 'ref':
+            pl = v[2]['rv']['place']
+            names = [e.get('n') for e in pl['p'] if isinstance(e, dict)]
+            if 'bound_generics' in names:
+                return (pl['l'], tuple(e if e == '*' else (e.get('n') or e.get('f')) for e in pl['p']))
+        return None
+
+    n_sites = 0
+    for b in mir.bodies:
+        inserts = [(bb, t) for bb, t in b.calls() if strip_generics(callee_name(t) or '').endswith('HashMap::insert') and t['args'] and map_base(b, t['args'][0])]
+        if not inserts:
+            continue
+        lookups = []   # (switch block, found-target, base)
+        for bb, t in b.calls():
+            nm = strip_generics(callee_name(t) or '')
+            if nm.endswith(('HashMap::get', 'HashMap::get_mut', 'HashMap::contains_key', 'HashMap::remove', 'HashMap::get_key_value')) and t['args']:
+                base = map_base(b, t['args'][0])
+                if base is None or t.get('target') is None:
+                    continue
+                dest = t['dest']['l']
+                # the switch on the lookup result
+                for sb in range(len(b.blocks)):
+                    tm = b.term(sb)
+                    if tm['k'] != 'switch':
+                        continue
+                    dl = op_local(tm['discr'])
+                    if dl is None:
+                        continue
+                    found = None
+                    for kind, dbb, idx, x in b.defs().get(dl, []):
+                        if kind == 'stmt' and x['rv']['k'] == 'discr' and x['rv']['place']['l'] == dest:
+                            # Option: 1 = Some ; bool (contains_key) handled below
+                            tg = dict((int(v), x2) for v, x2 in tm['targets'])
+                            found = tg.get(1, tm['otherwise'] if 0 in tg else None)
+                    if dl == dest and b.local_ty(dest) == 'bool':
+                        tg = dict((int(v), x2) for v, x2 in tm['targets'])
+                        found = tm['otherwise'] if 0 in tg else tg.get(1)
+                    if found is not None:
+                        lookups.append((sb, found, base))
+        for bb, t in inserts:
+            base = map_base(b, t['args'][0])
+            same = [(sb, found) for sb, found, bs in lookups if bs[1] == base[1]]
+            on_found = [(sb, found) for sb, found in same if mirq.dominates(b, found, bb) and found != sb]
+            if not on_found:
+                r6.inst({'body': b.nid, 'site': mirq.site(b, bb), 'after_successful_lookup': False}, ok=True, kind=(b.nid, 'fresh'))
+                continue
+            n_sites += 1
+            val = op_local(t['args'][2]) if len(t['args']) > 2 else None
+            aliases, origins = mirq.move_origins(b, val) if val is not None else (set(), [])
+            bad = []
+            for obb, idx, kind, payload in origins:
+                ok = False
+                if kind == 'proj':
+                    # (x as Continue).0 / (x as Some).0 where x = Try::branch(common_type(..)) or common_type(..)
+                    k2, v2 = mirq.chase(b, payload['l'])
+                    if k2 == 'call':
+                        nm = strip_generics(callee_name(v2[1]) or '')
+                        if nm.endswith('Try>::branch') or nm.endswith('::branch'):
+                            inner = op_local(v2[1]['args'][0])
+                            k3, v3 = mirq.chase(b, inner) if inner is not None else (None, None)
+                            ok = k3 == 'call' and strip_generics(callee_name(v3[1]) or '') == 'xtype::XType::common_type'
+                        elif nm == 'xtype::XType::common_type':
+                            ok = True
+                if not ok:
+                    bad.append((obb, idx, kind))
+            r6.inst({'body': b.nid, 'site': mirq.site(b, bb), 'after_successful_lookup': True, 'value_origins': len(origins), 'all_from_common_type': not bad and bool(origins)}, ok=not bad and bool(origins), kind=(b.nid, 'rebind'))
+            if bad or not origins:
+                obb, idx, kind = bad[0] if bad else (bb, None, 'none')
+                r6.fail('%s/rebind-without-common_type' % b.nid, mirq.site(b, obb, idx) if idx is not None else mirq.site(b, obb),
+                        'an already-bound generic parameter is overwritten with a value that does not come from common_type(existing, new) (%s origin): the two bindings are not unified, so incompatible arguments can bind one parameter' % kind)
+    if n_sites < 1:
+        r6.fail('anchor/rebind-site', 'src/xtype.rs', 'no re-binding site (insert after a successful lookup of bound_generics) found: Bind::mix not recognised')
+    r6.need(3)
+
